@@ -717,6 +717,7 @@ func (s *storage) Shrink(stopAfter time.Duration) bool {
 			}
 			if !table.isFree && table.Len() == 0 {
 				s.archetypes[table.archetype].FreeTable(table)
+				s.cache.removeTable(table)
 				anyFound = true
 			}
 		}
